@@ -488,7 +488,8 @@ def midStmt (d : Dst) (start : Nat) (num : Option Nat) (e : Expr) (s : Heap) : H
     | some l =>
       let cur := deref s1 ((getV s1 l).getD Ptr.null)
       if n > 255 then .error (Gen.E.ifc, s1) else
-      if n > 0 ∧ (start < 1 ∨ start > cur.length) then .error (Gen.E.ifc, s1) else
+      if start < 1 ∨ start > 255 then .error (Gen.E.ifc, s1) else
+      if n > 0 ∧ start > cur.length then .error (Gen.E.ifc, s1) else
       match eval e (resetTemps s1) with
       | .error x => .error x
       | .ok s2 =>
